@@ -32,3 +32,6 @@ def run(ck):
     fresh.no_hidden_state(ck, "C20.R8")                  # results depend on the documented state only (no caches / memos)
     conv.rescaling_siblings(ck, "C10.R1", "C10.R2")     # equal() stores through the map unless the source is a fixed-point object
     conv.derived_attributes(ck, "C17.R2")
+    sizes.best_sizes_assembly(ck, "C06.R2", "C06.R3", "C06.R4")   # "size inference sizes the transformed value": no shortcut on the caller's untransformed input
+    funcs.template_sizes(ck, "C08.R3")                  # a scaled out_like template: the result is stored through the template's own map (value route), never as raw codes sized for it
+    funcs.governing_config(ck, "C08.R3")
